@@ -126,11 +126,38 @@ def observe(w, roots, pre):
     return res
 
 
+def _listed_equals_loaded(w, info_out):
+    """the generations `info` lists for every history are exactly the ones its chain file lists (the chain is the
+    table of contents: a manifest that never made it into the chain is not a generation)"""
+    import re
+    loaded, cur = {}, None
+    for ln in info_out.splitlines():
+        m = re.match(r"^(?:Info with history at path|Child History at) (.*?):?$", ln)
+        g = re.match(r"^  Generation (\d+) ", ln)
+        if m:
+            cur = os.path.normpath(m.group(1))
+            loaded[cur] = []
+        elif g and cur is not None:
+            loaded[cur].append(int(g.group(1)))
+    ok = True
+    for root, nums in loaded.items():
+        cp = os.path.join(root, "ascmhl", "ascmhl_chain.xml")
+        entries = PJ.parse_chain(open(cp, "rb").read()).get("entries", []) if os.path.exists(cp) else []
+        if sorted(nums) != sorted(int(e["n"]) for e in entries):
+            ok = False
+    return ok
+
+
 def after_commands(w):
-    out = {}
-    for name, cmd, args in (("info", C.info, [w.cpath(())]), ("verify", C.verify, [w.cpath(())]), ("create", C.create, [w.cpath(()), "-h", "md5"])):
+    out = {"listed_ok": True}
+    for name, cmd, args in (("info", C.info, [w.cpath(())]), ("verify", C.verify, [w.cpath(())]), ("create", C.create, [w.cpath(()), "-h", "md5"]), ("info2", C.info, [w.cpath(())])):
         w.pin_mtimes()
         r = w.run(cmd, args)
+        if name in ("info", "info2"):
+            if r["exit"] == 0 and not _listed_equals_loaded(w, r["out"]):
+                out["listed_ok"] = False
+            if name == "info2":
+                continue
         out[name] = r["exit"]
         out[name + "_exc"] = (r["exc"] or "")[:120]
         w.tick()
